@@ -608,8 +608,8 @@ func TestC36(t *testing.T) {
 		}
 	}
 	rng := r.Rand("histories")
-	nMem := r.N(3000, 60000)
-	nPeb := r.N(40, 600)
+	nMem := r.N(3000, 40000)
+	nPeb := r.N(40, 400)
 	cases := make([]c36Case, 0, nMem+nPeb)
 	for i := 0; i < nMem; i++ {
 		cases = append(cases, c36Gen(fx, rng, "memdb"))
